@@ -55,6 +55,12 @@ FILE_ITEMS: Dict[str, Dict[str, Any]] = {
     'unbalanced': {'pk/m.py': b'x = (1, 2\ny = 3\n'}, 'syntax-error': {'pk/m.py': b'def (:\n'}, 'indent-error': {'pk/m.py': b'def f():\npass\n'}, 'backslash-eof': {'pk/m.py': b'x = 1 \\'},
     'nested-100-blocks': {'pk/m.py': ('\n'.join(' ' * i + 'if x:' for i in range(100)) + '\n' + ' ' * 100 + 'pass\n').encode()},
     'too-deep-parens': {'pk/m.py': ('x = ' + '(' * 3000 + '1' + ')' * 3000 + '\n').encode()}, 'deep-lambda': {'pk/m.py': ('x = ' + 'lambda: ' * 5000 + '0\n').encode()},
+    # parseable, but deep: the parser accepts them, the recursive walks over the tree have to cope
+    'elif-chain-400': {'pk/m.py': ('import sys\nif sys.a == 0: x0 = 0\n' + ''.join(f'elif sys.a == {i}: x{i} = {i}\n' for i in range(1, 400))).encode()},
+    'binop-chain-600': {'pk/m.py': ('def f(a=' + ' + '.join(['"a"'] * 600) + '): pass\n').encode()},
+    'attr-chain-2000': {'pk/m.py': ('class C(a' + '.a' * 2000 + '): pass\n').encode()},
+    'call-chain-1500': {'pk/m.py': ('X = f' + '()' * 1500 + '\n').encode()},
+    'subscript-chain-1500': {'pk/m.py': ('X: a' + '[0]' * 1500 + ' = 1\n').encode()},
     'huge-file': {'pk/m.py': ('x = 1\n' * 20000).encode()}, 'no-newline-eof': {'pk/m.py': b'def f(): "doc"'},
     'name-dash': {'pk/a-b.py': b'x = 1\n'}, 'name-keyword': {'pk/class.py': b'x = 1\n'}, 'name-unicode': {'pk/\u00e9t\u00e9.py': b'def f(): "doc"\n'}, 'name-space': {'pk/a b.py': b'x = 1\n'},
     'name-percent': {'pk/a%41b.py': b'x = 1\n'}, 'name-hash': {'pk/a#b.py': b'x = 1\n'}, 'name-dot': {'pk/a.b.py': b'x = 1\n'}, 'name-digit': {'pk/1st.py': b'x = 1\n'}, 'name-html': {'pk/<b>&.py': b'x = 1\n'},
